@@ -1,6 +1,7 @@
 /- Line-protocol helpers shared by the driver modes. -/
 import Swiftness.Model.Felt
 import Swiftness.Model.Outcome
+import Swiftness.Model.PublicInput
 
 namespace Swiftness.Proto
 open Swiftness
@@ -29,9 +30,26 @@ def hxs (l : List Felt) : String := if l.isEmpty then "-" else ",".intercalate (
 def hexByte (b : UInt8) : String := String.ofList [Felt.hexDigit (b.toNat / 16), Felt.hexDigit (b.toNat % 16)]
 def hexBytes (l : List UInt8) : String := if l.isEmpty then "-" else String.join (l.map hexByte)
 
+/-- `a:b;c:d` → rows of felts (`-` = none) -/
+def rows? (s : String) : Option (List (List Felt)) :=
+  if s == "-" then some [] else (s.splitOn ";").mapM fun r => (r.splitOn ":").mapM felt?
+
 def out {α} (show_ : α → String) : Outcome α → String
   | .ok a => let s := show_ a; if s.isEmpty then "ok" else "ok " ++ s
   | .err _ => "err"
   | .panic s => "panic " ++ s
+
+/-- PublicInput = 10 tokens (see `hx`): log_n_steps rc_min rc_max layout dyn segments pad_addr pad_val main_page headers -/
+def parsePI? : List String → Option PublicInput
+  | [lns, rmin, rmax, layout, dyn, segs, pa, pv, mp, hs] => do
+    let dynp ← if dyn == "-" then some none else (nats? dyn).map some
+    let segs ← (← rows? segs).mapM fun r => match r with | [b, s] => some (⟨b, s⟩ : SegmentInfo) | _ => none
+    let mp ← (← rows? mp).mapM fun r => match r with | [a, v] => some (⟨a, v⟩ : AddrValue) | _ => none
+    let hs ← (← rows? hs).mapM fun r => match r with
+      | [a, b, c, d] => some (⟨a, b, c, d⟩ : ContinuousPageHeader) | _ => none
+    pure { logNSteps := ← felt? lns, rangeCheckMin := ← felt? rmin, rangeCheckMax := ← felt? rmax, layout := ← felt? layout,
+           dynamicParams := dynp, segments := segs, paddingAddr := ← felt? pa, paddingValue := ← felt? pv,
+           mainPage := mp, continuousPageHeaders := hs }
+  | _ => none
 
 end Swiftness.Proto
